@@ -39,6 +39,40 @@ class ListE:
         return ListE(self.items)
 
 
+class IterE(ListE):
+    """An ITERATOR object: the result of a generator expression, a generator function, iter(), zip(), map(), filter(),
+    enumerate(), reversed(), itertools.*.  The engine computes its items eagerly (A3); this entry keeps what is still
+    to be delivered.  It is not a list (no len / subscripts / == / methods: Unsupported), it is always true, next() takes
+    the first pending item, and a full consumption (list(it), for x in it, sum(it) ...) marks it `consumed`: CPython
+    would deliver nothing on a second pass, the engine refuses one (Unsupported) so that no consumer can silently see
+    the items twice.  `free`: (activation id, {name: value}) of the free variables a stored generator expression reads -
+    CPython evaluates the element expressions only when the generator is consumed, so they must be unchanged then."""
+
+    consumed = False
+    free = None
+    pending = None  # (exception, state at creation): computing the items RAISED without changing anything - CPython raises
+    #                 that exception when the iterator is consumed; only a complete consumer (list, sum ...) may take it
+
+    def copy(self):
+        c = IterE(self.items)
+        c.consumed, c.free, c.pending = self.consumed, self.free, self.pending
+        return c
+
+
+class DictViewE(ListE):
+    """d.keys() / d.values() / d.items(): a LIVE view of the dictionary `dref` (which = "keys" | "values" | "items").
+    St.get() recomputes `items` from the dictionary's current contents at every access, so a view taken before an
+    insertion shows the new entry and a loop over d.items() reads the current values, as in CPython.  It is NOT a list:
+    subscripts, list methods, + and == on a view are refused (Unsupported) - only iteration, len, `in`, truth."""
+
+    def __init__(self, dref, which, items=()):
+        ListE.__init__(self, items)
+        self.dref, self.which = dref, which
+
+    def copy(self):
+        return DictViewE(self.dref, self.which, self.items)
+
+
 class DequeE(ListE):
     kind = "deque"
 
@@ -48,12 +82,23 @@ class DequeE(ListE):
 
 class SetE:
     kind = "set"
+    frozen = False
 
     def __init__(self, items):
         self.items = list(items)  # concrete hashables, insertion ordered
 
     def copy(self):
         return SetE(self.items)
+
+
+class FrozenSetE(SetE):
+    """frozenset(...): the element model of SetE, but IMMUTABLE as in CPython - `fs |= x` rebinds the name to a new
+    object (frozenset has no __ior__), there is no add / discard / update ..., and it is not an instance of `set`."""
+
+    frozen = True
+
+    def copy(self):
+        return FrozenSetE(self.items)
 
 
 class NumSetE(SetE):
